@@ -67,6 +67,8 @@ def program(draw):
     nsub = draw(st.integers(1, 5))
     # most programs concentrate their overrides on one parameter: leaks need several classes touching the same accessible
     focus = draw(st.sampled_from(pnames + [None]))
+    # one override object (a module level 'common = Parameter(fmtstr=...)') used in the bodies of several classes
+    shared_pool = {}
     for i in range(nsub):
         name = 'BCDEF'[i]
         parent = draw(st.sampled_from([c['name'] for c in classes]))
@@ -75,8 +77,13 @@ def program(draw):
         if focus and focus not in chosen and draw(st.integers(0, 3)):
             chosen.append(focus)
         for pn in chosen:
-            kind = draw(st.sampled_from(['partial', 'partial', 'dtprop', 'bare', 'bare', 'none', 'inherit-false', 'limit']))
-            if kind == 'partial':
+            kind = draw(st.sampled_from(['partial', 'partial', 'dtprop', 'bare', 'bare', 'none', 'inherit-false', 'limit', 'shared', 'shared']))
+            if kind == 'shared':
+                key = pn      # (one object under two different names is not considered: __set_name__ renames it)
+                if key not in shared_pool:
+                    shared_pool[key] = dict(draw(partial_override(Ts[pn])), shared=f's{len(shared_pool)}')
+                c['overrides'][pn] = dict(shared_pool[key])
+            elif kind == 'partial':
                 c['overrides'][pn] = draw(partial_override(Ts[pn]))
             elif kind == 'dtprop':
                 c['overrides'][pn] = draw(partial_override(Ts[pn], 'dtprop'))
@@ -90,7 +97,8 @@ def program(draw):
             elif kind == 'limit' and Ts[pn]['k'] in ('double', 'int'):
                 c['overrides'][pn + '_max'] = {'kind': 'limit'}
         if draw(st.booleans()):
-            c['overrides']['cmd'] = {'kind': 'method'}
+            # the command overridden by a plain method, or by a Command which does not inherit the properties
+            c['overrides']['cmd'] = {'kind': draw(st.sampled_from(['method', 'method', 'cmd-inherit-false']))}
         if draw(st.integers(0, 2)) == 0:
             # the command with a struct argument, overridden by a plain method with other default arguments
             c['overrides']['cmd2'] = {'kind': 'method2', 'defaults': draw(st.sampled_from(['a', 'ab', '']))}
@@ -170,6 +178,7 @@ class World:
         self.tag = tag
         self.classes = {}
         self.constants = {}
+        self.shared = {}
         self.instances = {}
         self.log = logging.getLogger('c09')
         self.srv = type('Srv', (), {})()
@@ -200,7 +209,7 @@ class World:
             def cmd(self):
                 """root command"""
                 return None
-            attrs['cmd'] = Command()(cmd)
+            attrs['cmd'] = Command(group='g0')(cmd)
 
             def cmd2(self, a, b=1):
                 """root command with a struct argument"""
@@ -216,7 +225,7 @@ class World:
                 def cmd(self):
                     """overriding method"""
                     return None
-                attrs['cmd'] = cmd
+                attrs['cmd'] = Command(inherit=False)(cmd) if o.get('kind') == 'cmd-inherit-false' else cmd
             elif o['kind'] == 'method2':
                 ns = {}
                 sig = {'a': 'a=0, b', 'ab': 'a=0, b=1', '': 'a, b'}[o['defaults']] if o['defaults'] != 'a' else 'b, a=0'
@@ -254,6 +263,10 @@ class World:
             return None
         if o['kind'] == 'inherit-false':
             return Parameter('not inherited', specs.build(o['T']), default=o['default'], inherit=False)
+        if o.get('shared'):
+            if o['shared'] not in self.shared:
+                self.shared[o['shared']] = self.make_override({k: v for k, v in o.items() if k != 'shared'})
+            return self.shared[o['shared']]
         what = o['what']
         if what == 'description':
             return Parameter(description='overridden description')
@@ -413,7 +426,23 @@ def execute(ctx, prog, steps, tag):
             world.run_step(step)
         except Exception as e:   # noqa - a program that frappy refuses (e.g. override not fitting the datatype): not a case
             ctx.label(f'program-refused:{type(e).__name__}')
+            if step['op'] == 'define' and isinstance(e, (AttributeError, KeyError, IndexError, NameError)):
+                # ... but a legal class body must not make the class machinery itself fall over
+                ctx.finding(f'define:crash:{type(e).__name__}', dict(prog, steps=steps[:i + 1], order=[]), f'{step!r}: {e!r}'[:300])
             return None
+        if step['op'] == 'define' and step['cls'] in world.classes and hasattr(world.classes[step['cls']], 'accessibles'):
+            # a command overridden by a plain method inherits the properties (here: the group of the root command),
+            # one overridden with Command(inherit=False) starts from the defaults
+            want, byname = 'g0', {c['name']: c for c in prog['classes']}
+            for cname in reversed(chain_list(prog, step['cls'])):
+                if byname[cname].get('overrides', {}).get('cmd', {}).get('kind') == 'cmd-inherit-false':
+                    want = ''
+            cobj = world.classes[step['cls']].accessibles.get('cmd')
+            if cobj is not None and cobj.group != want:
+                ctx.finding('command-inherit:' + ('inherited-although-inherit-false' if want == '' else 'not-inherited'),
+                            dict(prog, steps=steps[:i + 1], order=[]), f'{step["cls"]}.cmd.group = {cobj.group!r}, expected {want!r}')
+            else:
+                ctx.ok('command-inheritance')
         after = all_snaps(world)
         allowed = touched(step, prog)
         for key, snap in before.items():
@@ -466,6 +495,16 @@ def chain(prog, cname):
     return res
 
 
+def chain_list(prog, cname):
+    """the class and its ancestors among the classes of the program, leaf first (the mixin carries no command)"""
+    byname = {c['name']: c for c in prog['classes']}
+    out = []
+    while cname in byname and cname not in out:
+        out.append(cname)
+        cname = byname[cname]['bases'][-1] if byname[cname]['bases'] else None
+    return out
+
+
 def permute(steps, order, prog):
     """dependency respecting permutation driven by the drawn priorities"""
     bases_of = {c['name']: c['bases'] for c in prog['classes']}
@@ -495,6 +534,15 @@ def valid_program(prog):
         for i, c in enumerate(prog['classes'][1:], 1):
             if not c['bases'] or c['bases'][-1] not in names[:i] or (len(c['bases']) > 1 and (c['bases'][:-1] != ['Mix'] or not prog['mixin'])):
                 return False
+        names_of = {}
+        for c in prog['classes'][1:]:
+            for pn, o in c['overrides'].items():
+                if o.get('shared'):
+                    names_of.setdefault(o['shared'], set()).add(pn)
+                    if o.get('kind') != 'partial':
+                        return False
+        if any(len(v) > 1 for v in names_of.values()):
+            return False
         defined = [s['cls'] for s in prog['steps'] if s['op'] == 'define']
         if ('Z' in defined) != bool(prog.get('unrelated')):
             return False
